@@ -179,5 +179,17 @@ func TestVerifReplayStructure(t *testing.T) {
 	for _, s := range shapes {
 		check(s)
 	}
-	fmt.Printf("STANDIN inputs=%d bound=\"%d configurations: every quoted label made of one or two literal pieces from a 15-piece alphabet covering every escape sequence, in multi-line and one-line blocks, LF and CRLF, with and without final newline; 5 nesting/order shapes\"\n", n, n)
+	// many siblings and deep nesting: a parser that keeps state across items (a depth counter, a
+	// recovery flag) must behave for the 300th one-line block as for the first
+	var many []verifItem
+	for i := 0; i < 300; i++ {
+		many = append(many, verifItem{typ: "item", labels: []string{fmt.Sprintf("n%d", i)}, body: []verifItem{{attr: "v"}}})
+	}
+	check(many)
+	deep := []verifItem{{attr: "leaf"}}
+	for i := 0; i < 60; i++ {
+		deep = []verifItem{{typ: "lvl", labels: []string{fmt.Sprintf("d%d", i)}, body: deep}}
+	}
+	check(append(deep, many[:3]...))
+	fmt.Printf("STANDIN inputs=%d bound=\"%d configurations: every quoted label made of one or two literal pieces from a 15-piece alphabet covering every escape sequence, in multi-line and one-line blocks, LF and CRLF, with and without final newline; 5 nesting/order shapes, 300 sibling one-line blocks, 60 levels of nesting\"\n", n, n)
 }
